@@ -28,7 +28,7 @@ def make_plan(pid, tier, seed, ctx, configs, meta):
     builds = sorted(set(c[0] for c in configs))
     units = UNITS + ['c10_build_' + b for b in builds]
     head = core.decls(units + ['c10_empty_and_single']) + 'void c10_prologue(uint32_t, uint32_t, uint32_t);\n' + \
-        'void c10_epilogue_any(uint32_t); void c10_epilogue_all(uint32_t); void c10_epilogue_join(uint32_t);\nvoid c09_shared_inputs(uint32_t); void c09_tuple_first(uint32_t, uint32_t, uint32_t); void c09_tuple_none(uint32_t, uint32_t, uint32_t);\nvoid c10_any3_none(uint32_t, uint32_t, uint32_t, uint32_t); void c10_any3_first(uint32_t, uint32_t, uint32_t, uint32_t); void c10_any3_last(uint32_t, uint32_t, uint32_t, uint32_t);\n' + core.unit_selector(units)
+        'void c10_epilogue_any(uint32_t); void c10_epilogue_all(uint32_t); void c10_epilogue_join(uint32_t);\nvoid c09_shared_inputs(uint32_t); void c20_when_allocs(uint32_t); void c09_tuple_first(uint32_t, uint32_t, uint32_t); void c09_tuple_none(uint32_t, uint32_t, uint32_t);\nvoid c10_any3_none(uint32_t, uint32_t, uint32_t, uint32_t); void c10_any3_first(uint32_t, uint32_t, uint32_t, uint32_t); void c10_any3_last(uint32_t, uint32_t, uint32_t, uint32_t);\n' + core.unit_selector(units)
     queries = []
     first = [True]
 
